@@ -56,6 +56,11 @@ PARTIALS = {
     "q": "{% assign z = v | plus: 1 %}{{ z }}",
     "dir/r.liquid": "{{ r }}{{ x }}",
     "loop": "{% for i in v %}{{ i }}{% endfor %}",
+    # extra tags reaching each other across template boundaries
+    "base": "BASE[{% block b %}base-b{{ v }}{% endblock %}|{% block c required %}{% endblock %}]",
+    "child": "{% extends 'base' %}{% block b %}child-{{ block.super }}{{ v }}{% endblock %}{% block c %}c{% endblock %}",
+    "mac": "{% macro mm x %}{% extends 'base' %}{% endmacro %}{% macro inc x %}{% include 'p' with x %}{% endmacro %}{% macro blk x %}{% block b %}{{ x }}{{ block.super }}{% endblock %}{% endmacro %}",
+    "brk": "{% break %}x{% continue %}",
 }
 
 
@@ -63,6 +68,9 @@ def sig_for(exc: BaseException, stage: str) -> str:
     if isinstance(exc, ValueError) and "integer string conversion" in str(exc):
         # one mechanism, reached from every place that stringifies a value
         return "escape:ValueError[int-max-str-digits]"
+    if isinstance(exc, OverflowError) and "C ssize_t" in str(exc):
+        # one mechanism: len() of a range object (render data) with more than sys.maxsize items
+        return "escape:OverflowError[len-of-huge-range]"
     return f"escape:{type(exc).__name__}@{core.liquid_frame(exc)}"
 
 
@@ -157,7 +165,7 @@ def position_core() -> list[Any]:
     # JSON-like values only (the property's quantifier): no Decimal, no custom objects
     return [
         None, True, 0, -1, 2**63 + 1, V.HUGE, 1.5, 1e308, float("inf"), float("-inf"), float("nan"),
-        "", "abc", "9" * 400, "1e999", "-inf", "\ud800", "\x00", "%(x)s %", "<![x]>", "253402300800",
+        "", "abc", "9" * 400, "9" * 5000, "1e999", "-inf", "\u00b2", "\u2460\u2461", "20\u00b25", "\u0664\u0662", "\ud800", "\x00", "%(x)s %", "<![x]>", "253402300800",
         [], [None, 1, "a"], {}, {"a": 1}, range(1, 4), [float("inf"), float("-inf")], [[1, 2], [3, [4, 5]]],
     ]
 
@@ -204,6 +212,8 @@ TAG_ARG_TEMPLATES = [
     "{% tablerow i in xs limit: A offset: B %}{{ i }}{% endtablerow %}",
     "{% cycle A, B %}{% cycle A, B %}",
     "{% cycle A: 1, 2 %}{% cycle A: 1, 2 %}",
+    "{% cycle 'g': 1, 2 %}{% cycle 'g': A %}{% cycle 'g': A %}{% cycle 'g': 1, 2, 3 %}{% cycle 'g': B %}",
+    "{% for i in (1..4) %}{% cycle A: 1, 2, 3 %}{% cycle A: B %}{% endfor %}",
     "{% case A %}{% when B %}b{% when 1, 'a' %}c{% else %}d{% endcase %}",
     "{% case A %}{% when B or A %}b{% endcase %}",
     "{% if A == B %}eq{% elsif A < B %}lt{% else %}x{% endif %}",
@@ -233,6 +243,11 @@ TAG_ARG_TEMPLATES = [
     "{% translate context: A, you: B %}Hi {{ you }}{% endtranslate %}",
     "{% translate you: A %}Hi %s {{ you }} 100%{% endtranslate %}",
     "{% with v: A, w: B %}{{ v }}{{ w }}{% endwith %}",
+    "{% include 'mac' %}{% call mm A %}|{% call inc B %}|{% call blk A %}",
+    "{% include 'child' with A as v %}|{% render 'child', v: B %}|{% include 'base' %}",
+    "{% for i in (1..2) %}{% include 'brk' %}{% render 'brk' %}{% endfor %}{% include 'brk' %}",
+    "{% include 'mac' %}{% for i in A %}{% call mm i %}{% endfor %}{% render 'mac' %}{% call blk B %}",
+    "{% block b %}{{ block.super }}{{ A }}{% endblock %}{% block b %}{% endblock %}{% extends A %}",
     "{% macro 'm' x, y: A %}{{ x }}{{ y }}{{ args }}{{ kwargs }}{% endmacro %}{% call 'm' B, A, z: A %}",
     "{{ A if B else A }}",
     "{{ A | default: B, allow_false: A }}",
@@ -342,6 +357,16 @@ def cases(ctx: core.Ctx):
                         args.append(f"a{i}")
                     yield {"kind": "position", "source": "{{ l | " + f + (": " + ", ".join(args) if args else "") + " }}", "data": V.enc(data), "mode": "strict", "extra": True, "async": idx % 11 == 0}
     ctx.extra["position_sweep"] = f"{len(fnames)} filters x positions 0..3 of 0..3 arguments x {len(core_vals)} hostile values"
+    # tags whose render state accumulates across tags: cycle tags sharing a named group with different numbers of items
+    idx = 0
+    for lens in itertools.product((1, 2, 3), repeat=3):
+        for reps, use_async, mode in itertools.product((1, 2, 3), (False, True), MODES):
+            idx += 1
+            if idx % ctx.nshards != ctx.shard:
+                continue
+            body = "".join("{% cycle 'g': " + ", ".join(str(k) for k in range(1, n + 1)) + " %}" for n in lens)
+            src = body * reps if reps < 3 else "{% for i in (1..3) %}" + body + "{% endfor %}"
+            yield {"kind": "stateful", "source": src, "data": V.enc({}), "mode": mode, "extra": False, "async": use_async}
     n = ctx.budget(50000, 3_000_000)
     for i in range(n):
         r = rng.random()
